@@ -120,6 +120,7 @@ def run_property(pid, tier, seed=0):
     from .cex import generic_key as CEXK
     assumed_contracts = set()
     always_assumed = set()
+    lifted = set()
     for res in results:
         tag = f"{res['unit']}/{res['digit']}/{res['mode']}"
         if res['canary']:
@@ -171,6 +172,8 @@ def run_property(pid, tier, seed=0):
             assumed_contracts.add(s)
         for s in res.get('assumed', []):
             always_assumed.add(s)
+        for s in res.get('lifted', []):
+            lifted.add(s)
     for (cu, cm, ckey), ent in sorted(canary_union.items()):
         if not ent['ran']:
             continue
@@ -293,7 +296,7 @@ def run_property(pid, tier, seed=0):
                                       note='bounded: complete over all inputs of the listed configurations only; never counted as proved'),
                             checker_cmd='verus <generated file> --output-json --time --error-format=json (one file per unit x digit x mode under build/verus/)',
                             trusted_base=ASSUMPTIONS,
-                            functions=functions, assumed_contracts=assumed, rewrites=rewrites,
+                            functions=functions, assumed_contracts=assumed, wf_lifted_contracts=dict(note='std trait methods whose body needs a precondition P that a trait method cannot state (A0 N >= 1): the real body is proved against `requires P ensures Q` as the inherent twin `<m>__wf_<Trait>`; callers see `ensures P ==> Q` on the trait method', functions=sorted(lifted)), rewrites=rewrites,
                             units=[f'{u}:{m}' for (u, m) in all_units], digits=digits,
                             canary=dict(expected=canary_total, fired=canary_fired),
                             solver_time_s=round(smt_us / 1e6, 2), undecided=undecided[:50], samples=samples,
